@@ -152,7 +152,8 @@ def grammar_case(tier, seed, index, spec=None):
     opts = dict(explicit_ids=rng.random() < 0.5)
     order = list(range(len(spec['rules'])))
     rng.shuffle(order)
-    fgg, info = G.build_fgg(fggs, spec, 'real', torch.float64, rule_order=order, nt_decl_first=rng.random() < 0.5, **opts)
+    ghost = G.rng_for(seed, 'C19ghost', tier, index) if index % 2 else None
+    fgg, info = G.build_fgg(fggs, spec, 'real', torch.float64, rule_order=order, nt_decl_first=rng.random() < 0.5, ghost_rng=ghost, **opts)
     # (ii) nonterminal_graph
     out = C.call(U.nonterminal_graph, fgg)
     want = G.nt_graph(spec)
@@ -177,7 +178,7 @@ def grammar_case(tier, seed, index, spec=None):
         h.spy(SP.SumProduct, 'apply_to_patterned_tensors', on_call=on_call, key='apply_to_patterned_tensors', static=True)
         for S in ('real', 'bool'):
             trace.clear()
-            fgg2, _ = G.build_fgg(fggs, spec, S, torch.float64, rule_order=order, **opts)
+            fgg2, _ = G.build_fgg(fggs, spec, S, torch.float64, rule_order=order, ghost_rng=G.rng_for(seed, 'C19ghost', tier, index) if index % 2 else None, **opts)
             out = C.call(lambda: fggs.sum_products(fgg2, semiring=G.make_semiring(fggs, S, torch.float64), kmax=3, tol=1e-3))
             if not out['ok']:
                 viols.append(C.viol(f"sum_products-exception:{out['exc_type']}:{out.get('where', '')}", out['exc'], traceback=out['tb']))
@@ -206,7 +207,7 @@ def grammar_case(tier, seed, index, spec=None):
     for v in viols:
         v['spec'] = spec
     nt = len(spec['nonterminals'])
-    return dict(cls='grammar-' + cls, features=sorted(G.features_of(spec)), verdict='violated' if viols else 'held',
+    return dict(cls='grammar-' + cls, features=sorted(G.features_of(spec)) + (['rhs-with-removed-edge-or-unused-label'] if index % 2 else []), verdict='violated' if viols else 'held',
                 key=G.spec_key(spec), nontrivial=nt >= 2, violations=viols, hooks=hooks,
                 sample=dict(spec=G.describe(spec)), obs=dict(grammars=1, sccs_traced=len(trace)))
 
